@@ -12,6 +12,7 @@ import (
 	"sync/atomic"
 	"time"
 
+	"github.com/hashicorp/go-plugin/internal/verifhook"
 	"github.com/hashicorp/yamux"
 )
 
@@ -55,22 +56,29 @@ func newMuxBroker(s *yamux.Session) *MuxBroker {
 func (m *MuxBroker) Accept(id uint32) (net.Conn, error) {
 	var c net.Conn
 	p := m.getStream(id)
+	verifhook.Point("mux.accept.slot", m, int64(id), 0)
 	select {
 	case c = <-p.ch:
+		verifhook.Point("mux.accept.took", m, int64(id), 0)
 		close(p.doneCh)
 	case <-time.After(5 * time.Second):
+		verifhook.Point("mux.accept.timeout", m, int64(id), 0)
 		m.Lock()
 		defer m.Unlock()
 		delete(m.streams, id)
+		verifhook.Point("mux.accept.deleted", m, int64(id), 0)
 
 		return nil, fmt.Errorf("timeout waiting for accept")
 	}
+	verifhook.Point("mux.accept.closed", m, int64(id), 0)
 
 	// Ack our connection
 	if err := binary.Write(c, binary.LittleEndian, id); err != nil {
+		verifhook.Point("mux.accept.ack", m, int64(id), 0)
 		c.Close()
 		return nil, err
 	}
+	verifhook.Point("mux.accept.ack", m, int64(id), 1)
 
 	return c, nil
 }
@@ -102,23 +110,29 @@ func (m *MuxBroker) Dial(id uint32) (net.Conn, error) {
 	if err != nil {
 		return nil, err
 	}
+	verifhook.Point("mux.dial.opened", m, int64(id), 0)
 
 	// Write the stream ID onto the wire.
 	if err := binary.Write(stream, binary.LittleEndian, id); err != nil {
+		verifhook.Point("mux.dial.wrote", m, int64(id), 0)
 		stream.Close()
 		return nil, err
 	}
+	verifhook.Point("mux.dial.wrote", m, int64(id), 1)
 
 	// Read the ack that we connected. Then we're off!
 	var ack uint32
 	if err := binary.Read(stream, binary.LittleEndian, &ack); err != nil {
+		verifhook.Point("mux.dial.ack", m, int64(id), 0)
 		stream.Close()
 		return nil, err
 	}
 	if ack != id {
+		verifhook.Point("mux.dial.ack", m, int64(id), 2)
 		stream.Close()
 		return nil, fmt.Errorf("bad ack: %d (expected %d)", ack, id)
 	}
+	verifhook.Point("mux.dial.ack", m, int64(id), 1)
 
 	return stream, nil
 }
@@ -142,24 +156,31 @@ func (m *MuxBroker) Run() {
 		stream, err := m.session.AcceptStream()
 		if err != nil {
 			// Once we receive an error, just exit
+			verifhook.Point("mux.run.exit", m, 0, 0)
 			break
 		}
+		verifhook.Point("mux.run.stream", m, 0, 0)
 
 		// Read the stream ID from the stream
 		var id uint32
 		if err := binary.Read(stream, binary.LittleEndian, &id); err != nil {
+			verifhook.Point("mux.run.id", m, 0, 0)
 			stream.Close()
 			continue
 		}
+		verifhook.Point("mux.run.id", m, int64(id), 1)
 
 		// Initialize the waiter
 		p := m.getStream(id)
+		verifhook.Point("mux.run.slot", m, int64(id), 0)
 		select {
 		case p.ch <- stream:
+			verifhook.Point("mux.run.park", m, int64(id), 1)
 		default:
 			// There is already a pending stream for this ID, nobody would
 			// ever pick this one up.
 			stream.Close()
+			verifhook.Point("mux.run.park", m, int64(id), 0)
 		}
 
 		// Wait for a timeout
@@ -172,6 +193,7 @@ func (m *MuxBroker) getStream(id uint32) *muxBrokerPending {
 	defer m.Unlock()
 
 	p, ok := m.streams[id]
+	verifhook.Point("mux.getstream", m, int64(id), verifhook.B(ok))
 	if ok {
 		return p
 	}
@@ -188,7 +210,9 @@ func (m *MuxBroker) timeoutWait(id uint32, p *muxBrokerPending) {
 	// for a timeout.
 	select {
 	case <-p.doneCh:
+		verifhook.Point("mux.tw.woke", m, int64(id), 0)
 	case <-time.After(5 * time.Second):
+		verifhook.Point("mux.tw.woke", m, int64(id), 1)
 	}
 
 	m.Lock()
@@ -203,6 +227,8 @@ func (m *MuxBroker) timeoutWait(id uint32, p *muxBrokerPending) {
 	select {
 	case s := <-p.ch:
 		s.Close()
+		verifhook.Point("mux.tw.drain", m, int64(id), 1)
 	default:
+		verifhook.Point("mux.tw.drain", m, int64(id), 0)
 	}
 }
